@@ -178,9 +178,17 @@ class GlobalContext:
             if self.rel_import_path is None:
                 raise ImportError("attempted relative import with no known parent package")
             path = self.rel_import_path
+            ctx_name = self.name
             if path.endswith("/__init__"):
                 path = os.path.dirname(path)
-            ctx_name = self.name
+            elif self.file_path is not None and not self.file_path.endswith("/__init__.py"):
+                #
+                # a plain module inside a package: relative imports are relative to its package,
+                # so a sibling gets the same context name whoever imports it
+                #
+                idx = ctx_name.rfind(".")
+                if idx >= 0:
+                    ctx_name = ctx_name[0:idx]
             for _ in range(import_level - 1):
                 path = os.path.dirname(path)
                 idx = ctx_name.rfind(".")
